@@ -1194,7 +1194,7 @@ class RZILTransformer(Transformer):
             promoted_type(a.value_type), promoted_type(b.value_type)
         )
 
-        name = f'const_{"neg" if items[0] == "-" else "pos"}{items[1]}{items[2] if items[2] else ""}'
+        name = f'const_{"neg" if result < 0 else "pos"}_{abs(result)}'
         return Number(name, result, a_type)
 
     def simplify_compare_expr(self, items) -> Pure:
